@@ -1105,7 +1105,8 @@ MANIFEST = {
             "and pRRT/pSBL/CForest/AnytimePathShortening use threads and are excluded; planners needing special problem "
             "classes are not constructed (see notes/C20.md). F200 (copied RNG) and F201 (SPARSdb random_device) are fixed in /repo; "
             "F202/F203 (GNAT ordered exact distance ties by element address) are fixed as well and stay as a two-layout "
-            "regression; open: F204 (halfNormalInt casts before clamping, INT_MIN for r_max = INT_MAX; fix proposed). "
+            "regression; F204 (halfNormalInt cast before clamping, INT_MIN for r_max = INT_MAX) is fixed too, its directed draws "
+            "stay as regressions; no open finding. "
             "PRM::constructRoadmap is wall-clock sliced by design and excluded; its grow/expand parts are driven.",
     "technique": "Lean 4 proof (state-machine equalities, bisimulation for the stale saved value, induction over oracle "
                  "computations) + bit-exact differential correspondence + two-process differential runs of planners",
